@@ -246,7 +246,7 @@ void RunCell(const vx::Cell& cell) {
 
 std::vector<std::string> Cells(int tier) {
   std::vector<std::string> cells;
-  for (const char* val : {"tracked", "void", "tracked-myerr"}) {
+  for (const char* val : {"tracked", "void", "tracked-myerr", "moveonly"}) {
     for (const char* prod : kProd) {
       for (const char* cons : kCons) {
         if (tier == 0 && std::string{val} == "tracked-myerr" &&
@@ -274,6 +274,8 @@ void Body(const vx::Cell& cell) {
     RunCell<vx::Tracked, yaclib::StopError>(cell);
   } else if (val == "void") {
     RunCell<void, yaclib::StopError>(cell);
+  } else if (val == "moveonly") {
+    RunCell<vx::TrackedMO, yaclib::StopError>(cell);
   } else {
     RunCell<vx::Tracked, MyError>(cell);
   }
